@@ -121,6 +121,13 @@ func (d *Decoder) decodeSlice(pkt *rtp.Packet) ([]byte, error) {
 			return nil, fmt.Errorf("discarding frame since a RTP packet is missing")
 		}
 
+		if (d.sliceBufferSize + d.fragmentsSize + len(pkt.Payload[4:])) > maxFrameSize {
+			errSize := d.sliceBufferSize + d.fragmentsSize + len(pkt.Payload[4:])
+			d.resetFragments()
+			return nil, fmt.Errorf("frame size (%d) is too big, maximum is %d",
+				errSize, maxFrameSize)
+		}
+
 		d.fragments = append(d.fragments, pkt.Payload[4:])
 		d.fragmentsSize += len(pkt.Payload[4:])
 
@@ -136,6 +143,13 @@ func (d *Decoder) decodeSlice(pkt *rtp.Packet) ([]byte, error) {
 		if pkt.SequenceNumber != d.fragmentNextSeqNum {
 			d.resetFragments()
 			return nil, fmt.Errorf("discarding frame since a RTP packet is missing")
+		}
+
+		if (d.sliceBufferSize + d.fragmentsSize + len(pkt.Payload[4:])) > maxFrameSize {
+			errSize := d.sliceBufferSize + d.fragmentsSize + len(pkt.Payload[4:])
+			d.resetFragments()
+			return nil, fmt.Errorf("frame size (%d) is too big, maximum is %d",
+				errSize, maxFrameSize)
 		}
 
 		d.fragments = append(d.fragments, pkt.Payload[4:])
